@@ -227,7 +227,12 @@ class Server:
                 f.write("\n")  # I like my JSON with a trailing newline
             while True:
                 with server:
-                    data = receive(server)
+                    try:
+                        data = receive(server)
+                    except (OSError, ValueError):
+                        # The client went away or sent garbage (ValueError: undecodable bytes).
+                        # That is the client's problem: keep serving.
+                        continue
                     sys.stdout = WriteToConn(server, "stdout", sys.stdout.isatty())
                     sys.stderr = WriteToConn(server, "stderr", sys.stderr.isatty())
                     resp: dict[str, Any] = {}
